@@ -25,14 +25,14 @@ import (
 // recording dictionary compression engine
 
 const (
-	classClosedTwice    = "c11-encoder-closed-more-than-once"
-	classCloseOverlap   = "c11-encoder-closed-while-encode-in-flight"
-	classEncodeAfter    = "c11-encode-called-after-encoder-closed"
-	classNeverClosed    = "c11-encoder-not-closed-when-connection-ended"
-	classReplyEncoded   = "c11-connect-reply-went-through-the-encoder"
-	classBypass         = "c11-frame-after-connect-reply-bypassed-the-encoder"
-	classTagOrder       = "c11-encoded-frames-not-one-per-encode-call-in-call-order"
-	classNotNegotiated  = "c11-encoder-used-on-connection-that-did-not-negotiate"
+	classClosedTwice     = "c11-encoder-closed-more-than-once"
+	classCloseOverlap    = "c11-encoder-closed-while-encode-in-flight"
+	classEncodeAfter     = "c11-encode-called-after-encoder-closed"
+	classNeverClosed     = "c11-encoder-not-closed-when-connection-ended"
+	classReplyEncoded    = "c11-connect-reply-went-through-the-encoder"
+	classBypass          = "c11-frame-after-connect-reply-bypassed-the-encoder"
+	classTagOrder        = "c11-encoded-frames-not-one-per-encode-call-in-call-order"
+	classNotNegotiated   = "c11-encoder-used-on-connection-that-did-not-negotiate"
 	classUnheldInstalled = "c11-encoder-naming-unheld-dictionary-was-used"
 	// One defect, three symptoms: with ConnectReply.ReplyWithoutQueue command replies are written by
 	// the reader goroutine straight to the transport (Client.writeEncodedCommandReply -> WriteFn),
